@@ -14,7 +14,8 @@ and again by the C07 harness) and about *where* each argument of a bound call la
   parameter whose annotation is a supertype of the annotation it lands on in the expected header
   (`ArgsContra`);  return covariance is `sup exp.ret act.ret`.
 
-The exception classes `D07_*` (decidable, printed by the driver) are defined here too.
+The exception classes `D07_*` (decidable, printed by the driver) are defined here too. (A third,
+typed class `kwShadow` existed until /repo commit d699eb1 repaired the defect.)
 -/
 namespace Pya.C07
 
@@ -157,13 +158,6 @@ def D07_starKwClash (exp act : TDefSig τ) : Bool :=
   exp.vp.isSome &&
     (act.posL.drop exp.posL.length).any fun a => a.kind == .posOrKw && acceptsKwStar exp a.name
 
-/-- **D07.kwShadow** (typed) — an expected positional-or-keyword parameter `n` is absorbed by the
-actual `*args`/`**kwargs`, but the actual header also has a keyword-only parameter `n`, whose
-annotation was never compared: the keyword `n=` lands there. -/
-def D07_kwShadow (R : TyRel τ) (exp act : TDefSig τ) : Bool :=
-  (exp.posL.drop act.posL.length).any fun e =>
-    e.kind == .posOrKw && act.ko.any fun a => a.name == e.name && !R.asg a.ann e.ann
-
 /-! ## Membership model of the annotation tags (for the executable typed spec) -/
 
 /-- Representative runtime objects: an `int`, a `bool`, a non-integral `float`, a `str`, a plain
@@ -188,9 +182,8 @@ gradual and never counts as a mismatch. -/
 def tagIncl (S T : Tag) : Bool :=
   S == .any || T == .any || RObj.all.all fun x => !memR x S || memR x T
 
-def d07Classes (R : TyRel τ) (exp act : TDefSig τ) : List String :=
+def d07Classes (exp act : TDefSig τ) : List String :=
   (if D07_posKwClash exp act then ["posKwClash"] else []) ++
-  (if D07_starKwClash exp act then ["starKwClash"] else []) ++
-  (if D07_kwShadow R exp act then ["kwShadow"] else [])
+  (if D07_starKwClash exp act then ["starKwClash"] else [])
 
 end Pya.C07
